@@ -100,6 +100,10 @@ def materialise(case, d):
     orig = {}
     for f in case["files"]:
         data = gen_content(f["class"], f["len"], f["seed"])
+        if f.get("repo_file"):
+            # a file of the repository's own test corpus (e.g. .lz members, which xz cannot create)
+            with open(os.path.join(os.environ.get("VERIF_REPO", "/repo"), f["repo_file"]), "rb") as fh:
+                data = fh.read()
         if f.get("compress_args") is not None:
             plain0 = data
             data = make_compressed(plain0, f["compress_args"], d)
@@ -117,6 +121,12 @@ def materialise(case, d):
             data = corrupt(data, f["corrupt_seed"])
         if f.get("truncate") is not None:
             data = data[:max(0, int(len(data) * f["truncate"]))]
+        if f.get("lzma_known_size") and len(data) > 13:
+            # .lzma header with the real uncompressed size instead of "unknown" (the end marker stays: valid)
+            n0 = len(gen_content(f["class"], f["len"], f["seed"]))
+            data = data[:5] + n0.to_bytes(8, "little") + data[13:]
+        if f.get("append_garbage"):
+            data = data + bytes(random.Random(f["append_garbage"]).getrandbits(8) | 1 for _ in range(1 + f["append_garbage"] % 20))
         if f.get("literal") is not None:
             data = f["literal"].encode("latin1")
         p = os.path.join(d, f["name"])
